@@ -1,7 +1,7 @@
 """C20 — Sample decoding applies exactly the declared conversions.
 
 translator : tools/gen_sample.py regenerates XmpModel/Gen/SampleConsts.lean (SAMPLE_FLAG_*, XMP_SAMPLE_*,
-             MAX_SAMPLE_SIZE, vdic_table, order of the conversion calls) from /repo on every run
+             MAX_SAMPLE_SIZE, vdic_table, order of the flag-conditioned steps) from /repo on every run
 proof      : XmpProps.C20 over XmpModel.Sample (loop-style model `Sample.load` = closed-form `Sample.Spec.load`)
 tie        : correspondence — harness/c20_sample.c calls the real libxmp_load_sample (memory HIO handle or
              SAMPLE_FLAG_NOLOAD buffer) under ASan+UBSan; the native driver drv_c20 evaluates, on the same case
@@ -23,27 +23,34 @@ import gen_sample  # noqa: E402
 LEVEL = "proof"
 MANIFEST = dict(
     category="proof",
-    text="Lean 4 theorems (XmpProps.C20) prove, for ALL flag sets, widths, layouts, lengths, loop points and available-byte "
-         "counts, that the pass-by-pass model of libxmp_load_sample (truncation block, loop sanity, read, 7-bit shift, endian "
-         "swap, 8/16-bit delta, sign flip, VIDC table, ADPCM4, stereo interleave, full-repeat flag, both guard-fill loops) "
-         "computes the closed-form element-wise specification: C20_main (whole function), C20_pipeline (conversions in the "
-         "defined order), C20_truncation, C20_loop, C20_guards, Sample.alloc_le / Sample.writes_in_bounds. The model is tied "
-         "to src/loaders/sample.c on every run by regenerated constants/tables (translator) and a differential correspondence "
-         "against the real function under ASan+UBSan on the whole allocation; the closed form doubles as the direct oracle.",
-    note="Trusted: Lean kernel (propext/Classical.choice/Quot.sound only), the hand-written models in XmpModel/Sample.lean, "
-         "tools/gen_sample.py, the harness and differ. Modelled-not-verified: the HIO layer (memory handle: hio_tell/hio_size/"
-         "hio_read/hio_seek semantics are assumed: reads never fall short before the end, seeks clamp), malloc failure paths, "
-         "big-endian hosts (WORDS_BIGENDIAN), callers' obligation that a NOLOAD buffer holds len*framelen bytes and that the "
-         "handle is non-NULL on the skip path. The single byte adpcm4_decoder writes at dest[bytelen] for odd bytelen is not "
-         "represented in the model's buffer (it is covered by writes_in_bounds and overwritten by the guard fill). "
-         "Correspondence is differential (quick: sampled; thorough: exhaustive small space + sampled large), not a proof about the C.",
+    text="Lean 4 theorems (XmpProps.C20) prove, for ALL flag sets, widths, layouts, lengths, loop points, streams and available-byte "
+         "counts, that the pass-by-pass model of libxmp_load_sample (truncation block with its bit operations, loop sanity, read / "
+         "in-place ADPCM4 decoder, 7-bit shift, endian swap, 8/16-bit delta per plane, sign flip, VIDC table, stereo interleave, "
+         "full-repeat flag, both guard-fill loops in their index order) equals the closed-form element-wise reference decoder: "
+         "C20_main (whole function, incl. return code, header, consumed bytes, whole allocation), C20_pipeline / C20_pipeline_load / "
+         "C20_stage_* (loops = index formulas, in the defined order; C20_stage_order ties the order to the regenerated call order; "
+         "OrderSensitive examples pin it), C20_truncation / C20_truncation_prefix, C20_loop, C20_guards, C20_no_error, C20_vidc_table, "
+         "Sample.alloc_le, Sample.writes_in_bounds. The model is tied to src/loaders/sample.c on every run by regenerated "
+         "constants/tables (translator) and a differential correspondence against the real function under ASan+UBSan on the whole "
+         "allocation data[-4 .. bytelen+extralen), incl. every call the corpus modules' real loaders make (link-time spy); the "
+         "closed form (with its own copy of the published VIDC law) doubles as the direct oracle that yields replayable failing inputs.",
+    note="Trusted: Lean kernel (propext/Classical.choice/Quot.sound only), the hand-written definitions in XmpModel/Sample.lean "
+         "(loop-style model and closed-form specification), tools/gen_sample.py, the harness and differ. Modelled-not-verified: the HIO "
+         "layer (hio_tell/hio_size/hio_read/hio_seek of memory and regular-file handles are assumed: reads are complete up to the "
+         "end, memory seeks clamp), malloc failure paths, big-endian hosts (WORDS_BIGENDIAN), the callers' obligations that a NOLOAD "
+         "buffer holds len*framelen bytes (hypothesis BufferOk) and that the handle is non-NULL on the skip path; xmp_sample.flg is "
+         "a 32-bit vector, len/lps/lpe unbounded integers (len*framelen <= 2^30 cannot overflow int since len <= MAX_SAMPLE_SIZE). "
+         "The single byte adpcm4_decoder writes at dest[bytelen] for odd bytelen is not represented in the model's buffer (it is "
+         "covered by writes_in_bounds and overwritten by the guard fill). Sample.accesses (the access ranges writes_in_bounds "
+         "talks about) is a hand transcription checked against the C only by ASan in the harness. Correspondence is differential "
+         "(quick: sampled; thorough: exhaustive small space + sampled large + whole corpus), not a proof about the C text.",
     technique="Lean 4 proofs by induction over each pass (loop = closed form) + regenerated constants + differential "
               "correspondence and closed-form oracle against the sanitized C",
     design_ref="DESIGN.md section 4 C20",
 )
 
 REQUIRED = ["Xmp.Sample." + n for n in (
-    "C20_stage_order", "C20_vidc_table", "C20_main", "C20_loaded", "C20_pipeline", "C20_pipeline_load", "C20_stage_shl1", "C20_stage_bswap",
+    "C20_stage_order", "C20_vidc_table", "C20_main", "C20_no_error", "C20_loaded", "C20_pipeline", "C20_pipeline_load", "C20_stage_shl1", "C20_stage_bswap",
     "C20_stage_delta8", "C20_stage_delta16", "C20_stage_unsign", "C20_stage_vidc", "C20_stage_interleave", "C20_stage_adpcm",
     "C20_truncation", "C20_truncation_prefix", "C20_loop", "C20_guards", "alloc_le", "writes_in_bounds")]
 
@@ -99,6 +106,30 @@ def job(args):
     rc, out, err = vlib.run_exe(exe, hargs, timeout=3000)
     res = {"args": hargs, "n": 0, "bad": [], "abort": None, "stats": {}, "keys": [], "samples": [], "validated": 0}
     text = out.decode("latin-1")
+    if rc != 0 and hargs[0] == "corpus" and "libxmp_load_sample" not in err:
+        # a crash of some loader outside the sample routine is not C20's business: redo file by file, drop the crashing ones
+        if len(hargs) > 3:
+            merged = dict(res)
+            merged["foreign_abort"] = []
+            parts = [job((exe, hargs[:2] + [fn], have_driver)) for fn in hargs[2:]]
+            for pr in parts:
+                if pr.get("foreign_abort"):
+                    merged["foreign_abort"] += pr["foreign_abort"]
+                    continue
+                if pr["abort"]:
+                    merged["abort"] = pr["abort"]
+                    continue
+                merged["n"] += pr["n"]
+                merged["validated"] += pr["validated"]
+                merged["bad"] += pr["bad"]
+                merged["keys"] += pr["keys"]
+                merged["samples"] += pr["samples"][:1]
+                merged.setdefault("corpus_flags", set()).update(pr.get("corpus_flags", set()))
+                for k, v in pr["stats"].items():
+                    merged["stats"][k] = merged["stats"].get(k, 0) + v
+            return merged
+        res["foreign_abort"] = [{"file": hargs[-1], "sig": vlib.sanitizer_signature(err)}]
+        return res
     if rc != 0:
         # name the case: re-run flushing every case line, the last one printed is the culprit
         rc2, out2, err2 = vlib.run_exe(exe, hargs, timeout=3000, env={"C20_FLUSH": "1"})
@@ -117,6 +148,14 @@ def job(args):
         elif c == "O":
             f = l.split(" ", 2)
             ol[f[1]] = f[2]
+        elif l.startswith("spy "):
+            for kv in l.split(" ")[1:]:
+                k, v = kv.split("=")
+                res["stats"]["corpus_calls_" + k] = res["stats"].get("corpus_calls_" + k, 0) + int(v)
+        elif l.startswith("file "):
+            res["stats"]["corpus_files"] = res["stats"].get("corpus_files", 0) + 1
+            if " ret=0 " in l:
+                res["stats"]["corpus_files_loaded"] = res["stats"].get("corpus_files_loaded", 0) + 1
     if len(cases) != len(rl):
         raise vlib.InfraError("harness output malformed: %d cases, %d results (%s)" % (len(cases), len(rl), hargs))
     dl = run_driver_bytes(out) if have_driver else None
@@ -167,6 +206,8 @@ def job(args):
                 bump("skipped_null_handle")
             else:
                 bump("skipped_at_eof_or_short_adpcm")
+        if hargs[0] == "corpus":
+            res.setdefault("corpus_flags", set()).add(flags)
         if nontrivial:
             keys.append(hash((flags, ln, lps, lpe, flg, skip, len(cf[9]), cf[9][:64], cf[10][:64])))
         if len(res["samples"]) < 2 and nontrivial:
@@ -195,10 +236,10 @@ def shrink_note(b):
 
 def run(ck):
     g = gen_sample.generate()
-    ck.note("translator", {"SampleConsts_changed": g["changed"], "stage_order": g["stage_order"]})
+    ck.note("translator", {"SampleConsts_changed": g["changed"], "flag_order": g["flag_order"], "stage_order": g["stage_order"]})
     ck.proofs(["XmpProps.C20"], required=REQUIRED, drivers=["drv_c20"])
     proofs_ok = bool(getattr(ck, "lean_ok", False)) and not ck.unproved_items
-    exe = vlib.build_harness("c20_sample", ["c20_sample.c"])
+    exe = vlib.build_harness("c20_sample", ["c20_sample.c"], extra=["-Wl,--wrap=libxmp_load_sample"])
     quick = ck.tier == "quick"
     have_driver = os.path.exists(vlib.lean_driver("drv_c20")) and getattr(ck, "lean_ok", False)
     if not have_driver and os.path.exists(vlib.lean_driver("drv_c20")):
@@ -207,6 +248,11 @@ def run(ck):
         have_driver = ok
     jobs = []
     base = ck.seed * 7919
+    # minimised past failures / boundary cases first
+    cdir = os.path.join(vlib.VERIF, "corpus", "C20")
+    if os.path.isdir(cdir):
+        for fn in sorted(os.listdir(cdir)):
+            jobs.append((exe, ["replay", os.path.join(cdir, fn)], have_driver))
     if quick:
         for i in range(16):
             jobs.append((exe, ["random", str(base + i), "400"], have_driver))
@@ -224,11 +270,23 @@ def run(ck):
         nsh = 512
         for i in range(nsh):
             jobs.append((exe, ["exh", str(i), str(nsh), "12"], have_driver))
+    # real loaders: every call the corpus modules' loaders make to libxmp_load_sample (spy via -Wl,--wrap)
+    files = [f for f in vlib.corpus_files() if os.path.getsize(f) < (400000 if quick else 4000000)]
+    ck.rng.shuffle(files)
+    if quick:
+        files = files[:96]
+    per = 6 if quick else 16
+    for i in range(0, len(files), per):
+        jobs.append((exe, ["corpus", "60000" if quick else "400000"] + files[i:i + per], have_driver))
     results = vlib.pmap(job, jobs, workers=16)
     stats = {}
     modes = {}
+    corpus_flags = set()
     for r in results:
         mode = r["args"][0]
+        for fa in r.get("foreign_abort") or []:
+            ck.bump("corpus_files_crashing_outside_sample_loader")
+            ck.note("corpus_crash_" + os.path.basename(fa["file"])[:40], fa["sig"])
         if r["abort"]:
             a = r["abort"]
             ck.violation("harness-abort:" + a["sig"],
@@ -236,6 +294,7 @@ def run(ck):
                          "libxmp_load_sample aborted under the sanitizers (rc=%d): %s on %s" % (a["rc"], a["sig"], a["case"][:200]))
             continue
         modes[mode] = modes.get(mode, 0) + r["n"]
+        corpus_flags |= r.get("corpus_flags", set())
         ck.cov["evaluations"] += r["n"]
         ck.cov["traces_validated_against_impl"] += r["validated"]
         for k in r["keys"]:
@@ -272,11 +331,12 @@ def run(ck):
     for k, v in sorted(stats.items()):
         ck.note(k, v)
     ck.note("cases_by_generator", modes)
+    ck.note("corpus_distinct_loader_flag_sets", sorted("0x%x" % x for x in corpus_flags))
     ck.cov["rule"] = ("cases = (loader flags, len, lps, lpe, flg, smpctl/module, handle position, file bytes, NOLOAD buffer); generators: "
                       "random (all 12 flag bits, 8/16 bit, mono/stereo, len -3..64 and > MAX_SAMPLE_SIZE, loop points incl. inverted/"
                       "out-of-range/INT_MIN/INT_MAX, avail 0..need+9, NULL handle), big (len 65..70000), exh (every combination of the 10 "
                       "effective flag bits x width x layout x len 0..9 x every avail 0..need+3 x rotating loop grid (3 points per combination in quick, 12 in thorough, of 252), plus the full loop grid "
-                      "on 4 flag sets; quick runs a seed-chosen 16/4096 slice). distinct = hash of the case without its id; non-trivial = "
+                      "on 4 flag sets; quick runs a seed-chosen 16/4096 slice), corpus (every call real loaders make to libxmp_load_sample while the repository's test modules are loaded from memory, recorded by a --wrap spy with the stream cut to need+8 bytes). distinct = hash of the case without its id; non-trivial = "
                       "the real code allocated PCM with len' > 0 and a conversion applied, the sample was truncated, or loop/flags changed")
     ck.assumptions += [
         "memory HIO handle semantics (hio_tell/hio_size/hio_read/hio_seek) as modelled: reads are complete up to the end, seeks clamp",
@@ -286,7 +346,7 @@ def run(ck):
 
 
 def replay(ck, rp):
-    exe = vlib.build_harness("c20_sample", ["c20_sample.c"])
+    exe = vlib.build_harness("c20_sample", ["c20_sample.c"], extra=["-Wl,--wrap=libxmp_load_sample"])
     case = rp["replay"]["case"] if isinstance(rp.get("replay"), dict) else None
     if not case:
         print("replay file holds no case (proof-only failure): %s" % rp.get("what"))
